@@ -485,6 +485,23 @@ theorem service_anonymized_overlay_never_raw (cap : Nat) (stats : Bool) (ovs : L
     obtain ⟨e, _, rfl⟩ := ho
     simp
 
+/-- **A pseudonym loaded while a hidden tunnel community runs is anonymized as a whole.**  After
+    `CommunicationManager.load` (generated `pseudonymAnonymize`) with a HiddenTunnelCommunity present, through any later
+    history without an explicit switch-off, neither the identity overlay's nor the attestation overlay's packets — the
+    two share one TunnelEndpoint — are ever handed to the pseudonym's raw socket. -/
+theorem pseudonym_overlays_never_raw (cap : Nat) (idCid atCid cid : Bytes) (hc : cid = idCid ∨ cid = atCid)
+    (hlen : cid.length = 20) (ops : List Op)
+    (hno : ∀ o ∈ ops, o ≠ .setAnonymity (overlayPrefix cid) false ∧ o ≠ .attachCommunity (overlayPrefix cid)) :
+    ∀ x ∈ trace (runState (init cap) (pseudonymOps true idCid atCid)) ops,
+      ∀ a body, Event.raw a (overlayPrefix cid ++ body) ∉ x.2.2 := by
+  have hl : (overlayPrefix cid).length = prefixLen := by
+    simp [overlayPrefix, communityPrefixHead, prefixLen, hlen]
+  apply anonymized_prefix_never_raw _ _ hl _ ops hno
+  rcases hc with rfl | rfl
+  · simp only [pseudonymOps, pseudonymAnonymize, runState, step, init, if_true, dictGet_dictSet]
+    split <;> simp
+  · simp [pseudonymOps, pseudonymAnonymize, runState, step, init, dictGet_dictSet]
+
 /-- **Delivery filter by origin.**  `TunnelEndpoint.notify_listeners((origin, p), from_tunnel)` offers the packet to
     exactly those listeners the wrapped endpoint has for it — the overlays registered for the packet's 22-byte prefix
     and the global listeners (`_prefix_map.get(prefix, _listeners)`) — whose `anonymize` attribute (absent = False)
